@@ -19,7 +19,7 @@ From BU Require Import Gen.Nets Address.Address Wif.Wif HD.HD NoPanic.AddressNP 
 From BU Require Import Merkle.Merkle Merkle.ExtractTop NoPanic.MerkleNP Bloom.Bloom NoPanic.BloomNP.
 From BU Require Import Gcs.Gcs NoPanic.GcsNP.
 From BU Require Import Bloom.BloomTx Bloom.BloomTxSpec Bloom.BloomTxInst Props.C10.
-From BU Require Import Gen.Kernels2 NoPanic.SourceNP.
+From BU Require Import Gen.Kernels2 NoPanic.SourceNP NoPanic.AddressBoundsNP.
 
 (* ---------------- CashAddr: DecodeCashAddress, encode ---------------- *)
 Theorem C08_DecodeCashAddress_no_panic : forall str, is_panic (decode_cashaddr str) = false.
@@ -96,6 +96,24 @@ Theorem C08_DecodeAddress_no_panic :
     is_panic (decode_address P ec_parse net reg_pkh reg_sh s) = false.
 Proof. exact AddressNP.decode_address_no_panic. Qed.
 Print Assumptions C08_DecodeAddress_no_panic.
+
+(* review round 2: the four prefix slices addr[:len(bchPrefix)+1], addr[:len(slpPrefix)+1] (the model writes them
+   with the total firstn, so the theorem above is silent about them) are in range, for every network record *)
+Theorem C08_DecodeAddress_bounds :
+  forall (P : Type) (ec_parse : list N -> option P) (net : Nets.net) (reg_pkh reg_sh s : list N),
+    AddressBoundsNP.decode_address_checked P ec_parse true net reg_pkh reg_sh s
+    = decode_address P ec_parse net reg_pkh reg_sh s.
+Proof. exact AddressBoundsNP.decode_address_checked_eq. Qed.
+Print Assumptions C08_DecodeAddress_bounds.
+
+(* without the SLP clause of the length pre-check a record whose SLP prefix is longer than its CashAddr prefix
+   by two characters makes the second slice fault on "q:q" (none of the six registered records is like that) *)
+Theorem C08_DecodeAddress_slp_guard_needed :
+  forall (P : Type) (ec_parse : list N -> option P) reg_pkh reg_sh,
+    AddressBoundsNP.decode_address_checked P ec_parse false AddressBoundsNP.net_long_slp reg_pkh reg_sh [113; 58; 113] = Panic 2 /\
+    AddressBoundsNP.decode_address_checked P ec_parse true AddressBoundsNP.net_long_slp reg_pkh reg_sh [113; 58; 113] = Err 1.
+Proof. exact AddressBoundsNP.decode_address_slp_guard_needed. Qed.
+Print Assumptions C08_DecodeAddress_slp_guard_needed.
 
 (* ---------------- DecodeWIF (model: Wif/Wif.v with checked indices and slices, engineer a-c15) ---------------- *)
 Theorem C08_DecodeWIF_no_panic : forall s, is_panic (decode_wif s) = false.
